@@ -350,6 +350,20 @@ void drv_apply(const char* op)
     else if(!strcmp(op, "apparrv")) B[i]->toArray().append(*B[j]);
     else B[i]->toMap().append(mkstr(key, keyn), *B[j]);
   }
+  else if(!strcmp(op, "heldapp"))
+  {
+    // the reference returned by the mutable accessor is kept across a copy of the Variant and used afterwards
+    j = (int)tok_int();
+    x = lit_parse();
+    if(i == j) logop = "nop";
+    else
+    {
+      Variant val; lit_build(x, val);
+      List<Variant>& held = B[i]->toList();
+      Variant* n = new Variant(*B[i]); delete B[j]; B[j] = n;
+      held.append(val);
+    }
+  }
   else if(!strcmp(op, "getc"))
   {
     // like get, but through the CONTAINER- / String-valued assignment operators: B[i] = (const List<Variant>&) that lives
